@@ -10,6 +10,7 @@ package rojson
 //@ func Marshal$1
 //@   props C18
 //@   binds v
+//@   calls Marshal
 //@   maypanic
 //@   track call.*
 //@   ensures [calls-the-wrapped-function-once|C18] count(call.ANY) == 1 && called(call.Marshal)
@@ -19,6 +20,7 @@ package rojson
 //@ func Unmarshal$1
 //@   props C18
 //@   binds v
+//@   calls Unmarshal
 //@   maypanic
 //@   track call.*
 //@   ensures [calls-the-wrapped-function-once|C18] count(call.ANY) == 1 && called(call.Unmarshal)
